@@ -2641,7 +2641,7 @@ Proof.
   repeat match type of Hx with
          | (if ?c then _ else _) = _ => destruct c; [inversion Hx; subst; cbn in H; discriminate|]
          end.
-  destruct (entries (store l)) as [|e0 rest] eqn:Ee; [discriminate|].
+  inv_bind Hx.
   repeat match type of Hx with
          | (if ?c then _ else _) = _ => destruct c; [inversion Hx; subst; cbn in H; discriminate|]
          end.
